@@ -10,11 +10,19 @@ From VM Require Import Prelude.MachInt Prelude.Outcome Prelude.Tok.
 Inductive qop :=
   | QFind | QToRegionAddr | QAddressInRange | QCheckAddress | QCheckedOffset | QCheckRange
   | QLastAddr | QHostAddress | QGetSlice | QIter
-  | RLastAddr | RAddressInRange | RCheckAddress | RCheckedOffset | RToRegionAddr.
+  | RLastAddr | RAddressInRange | RCheckAddress | RCheckedOffset | RToRegionAddr
+  (* region-level accessors: region.get_host_address(b), region.get_slice(b, c), region.as_volatile_slice(),
+     region.file_offset()   (c2_a = region index) *)
+  | RHostAddress | RGetSlice | RAsVolatileSlice | RFileOffset.
 
 (* c2_L: (start, len) of every region, in collection order.  c2_a c2_b c2_c: the arguments
    (guest address / base, offset / length / count); for the R* queries c2_a is the region index *)
-Record case02 := { c2_mode : mode; c2_L : list (N * N); c2_op : qop; c2_a : N; c2_b : N; c2_c : N }.
+(* c2_host / c2_slice: the configuration - does the implementor's region type PROVIDE host addresses /
+   slices (true), or does it rely on the trait's provided method for that capability (false)?  A
+   region type that provides the capability must grant it exactly where the property says; one that
+   does not may refuse everywhere, but whatever it grants must still be inside the region. *)
+Record case02 := { c2_mode : mode; c2_L : list (N * N); c2_op : qop; c2_a : N; c2_b : N; c2_c : N;
+                   c2_host : bool; c2_slice : bool }.
 Record obs02 := { o2_k : N; o2_x : N; o2_y : N; o2_z : N; o2_l1 : list N; o2_l2 : list N }.
 
 (* the set-theoretic reading *)
@@ -38,6 +46,10 @@ Definition boolobs (c : bool) (o : obs02) : bool := o2_k o =? (if c then 1 else 
 Fixpoint list_eqbN (a b : list N) : bool :=
   match a, b with [], [] => true | x :: a', y :: b' => (x =? y) && list_eqbN a' b' | _, _ => false end.
 
+(* "granted exactly" for a provider; "granted only there" for a type that relies on the default *)
+Definition granted (provides should : bool) (right : bool) (o : obs02) : bool :=
+  if should then (if provides then right else right || is_err o) else is_err o.
+
 Definition ok_C02 (c : case02) (o : obs02) : bool :=
   let L := c2_L c in let a := c2_a c in let b := c2_b c in
   match c2_op c with
@@ -57,16 +69,15 @@ Definition ok_C02 (c : case02) (o : obs02) : bool :=
       match L with [] => true | _ :: _ =>
         (o2_k o =? 1) && mappedb L (o2_x o) && forallb (fun p => fst p + snd p - 1 <=? o2_x o) L end
   | QHostAddress =>                (* ... and host pointer: region's host base + offset *)
-      if mappedb L a then (o2_k o =? 1) && (o2_x o <? N.of_nat (length L)) && inreg (nthr L (o2_x o)) a
-                          && (o2_y o =? a - fst (nthr L (o2_x o)))
-      else is_err o
+      granted (c2_host c) (mappedb L a)
+        ((o2_k o =? 1) && (o2_x o <? N.of_nat (length L)) && inreg (nthr L (o2_x o)) a
+         && (o2_y o =? a - fst (nthr L (o2_x o)))) o
   | QGetSlice =>                   (* granted exactly for the non-empty ranges contained in one region *)
       if b =? 0 then true else
-      if existsb (fun p => inreg p a && (a + b <=? fst p + snd p)) L && (a <? W64) then
-        (o2_k o =? 1) && (o2_x o <? N.of_nat (length L)) && inreg (nthr L (o2_x o)) a
-        && (a + b <=? fst (nthr L (o2_x o)) + snd (nthr L (o2_x o)))
-        && (o2_y o =? a - fst (nthr L (o2_x o))) && (o2_z o =? b)
-      else is_err o
+      granted (c2_slice c) (existsb (fun p => inreg p a && (a + b <=? fst p + snd p)) L && (a <? W64))
+        ((o2_k o =? 1) && (o2_x o <? N.of_nat (length L)) && inreg (nthr L (o2_x o)) a
+         && (a + b <=? fst (nthr L (o2_x o)) + snd (nthr L (o2_x o)))
+         && (o2_y o =? a - fst (nthr L (o2_x o))) && (o2_z o =? b)) o
   | QIter =>                       (* num_regions / iter expose the collection in order *)
       (o2_k o =? 1) && (o2_x o =? N.of_nat (length L))
       && list_eqbN (o2_l1 o) (map fst L) && list_eqbN (o2_l2 o) (map snd L)
@@ -75,4 +86,17 @@ Definition ok_C02 (c : case02) (o : obs02) : bool :=
   | RCheckAddress => some1 (b <? snd (nthr L a)) b o
   | RCheckedOffset => some1 (b + c2_c c <? snd (nthr L a)) (b + c2_c c) o
   | RToRegionAddr => some1 (inreg (nthr L a) b) (b - fst (nthr L a)) o
+  (* a region-level accessor is granted only inside the region.  Host pointer for offset b: the
+     region's host base + b, for b < len (o2_x = pointer - host base of THAT region, mod 2^64) *)
+  | RHostAddress => granted (c2_host c) (b <? snd (nthr L a)) ((o2_k o =? 1) && (o2_x o =? b)) o
+  (* slice [b, b+n), n >= 1: only if b + n <= len (exact sum: a count that would wrap is refused);
+     then it starts at host base + b and has n bytes.  n = 0 not judged (DESIGN section 8) *)
+  | RGetSlice =>
+      if c2_c c =? 0 then true else
+      granted (c2_slice c) (b + c2_c c <=? snd (nthr L a))
+        ((o2_k o =? 1) && (o2_x o =? b) && (o2_y o =? c2_c c)) o
+  (* the region-wide slice is the range [0, len) of that region *)
+  | RAsVolatileSlice =>
+      granted (c2_slice c) true ((o2_k o =? 1) && (o2_x o =? 0) && (o2_y o =? snd (nthr L a))) o
+  | RFileOffset => true            (* the property does not speak about backing files: correspondence only *)
   end.
